@@ -576,6 +576,180 @@ def o11b(h, st):
     h.done()
 
 
+# ---------------------------------------------------------------------------------------------------------------------
+# P0-P2  MODULAR contracts for circuits of ANY length (ghost sequences + callee contracts as stubs; see tverif.interp.GSeq)
+#
+#   P0  Gate.inverse on symbolic qubit indices: the inverse acts on exactly the same targets / controls, whatever they are (O2 proves U(g^-1) U(g) == 1 per gate kind)
+#   P1  Circuit.inverse == Circuit([g.inverse() for g in reversed(gates)], same fixed width)   for any length  => U(result) U(c) == 1 by telescoping (O2 per gate)
+#   P2  remove_small_rotations == order-preserving filter, dropping only rotations within thr of a multiple of their TRUE period, for any length
+
+from tverif.engine import Opaque, stub
+from tverif.interp import GSeq
+
+
+def _blank_circuit(**fields):
+    from tangelo.linq import Circuit
+    c = Circuit.__new__(Circuit)
+    c.__dict__ = dict(fields)
+    return c
+
+
+def _init_args(call):
+    args, kw = call
+    names = ["gates", "n_qubits", "name", "cmeasure_control"]
+    out = {n: "<absent>" for n in names}
+    for n, v in zip(names, args[1:]):
+        out[n] = v
+    out.update(kw)
+    return out
+
+
+def _sym_gate(h, name, nt, nc, parameter, var=False):
+    from tangelo.linq import Gate
+    qs = [h.integer(f"q{i}") for i in range(nt + nc)]
+    for q in qs:
+        h.assume(q >= 0)
+    for a, b in itertools.combinations(qs, 2):
+        h.assume(a != b)
+    g = Gate.__new__(Gate)
+    g.__dict__ = {"name": name, "target": list(qs[:nt]), "control": (list(qs[nt:]) if nc else None), "parameter": parameter, "is_variational": var}
+    return g, qs
+
+
+@contract("C09", "P0.Gate.inverse.any_indices", targets=[(G, "Gate.inverse"), (G, "Gate.__init__")], level="P", structures=o2_structures)
+def p0(h, st):
+    """for EVERY placement (symbolic, pairwise distinct, non-negative qubit indices) and every real parameter: g.inverse() has exactly g's targets and controls in the same
+    order, the name / parameter that O2 proves to be the inverse on the canonical placement (same name with the negated parameter; PHASE(-pi/2), PHASE(-pi/4) for S, T), the
+    same variational flag, fresh index lists, and g is unchanged - so O2's operator identity holds on every placement"""
+    if not h.symbolic:
+        h.check("native: covered by O2", True)
+        h.done()
+        return
+    name = st["name"]
+    nt = 2 if name in TWO_TARGET else 1
+    nc = st["ncontrols"]
+    theta = h.real("theta") if name in PARAM else ""
+    pi_ = h.pi       # keep pi exact inside the code under contract
+    g, qs = _sym_gate(h, name, nt, nc, theta, var=True)
+    before = snapshot(g.__dict__)
+    gi = h.call(G, "Gate.inverse", g)
+    h.check("gate unchanged", snapshot(g.__dict__) == before)
+    h.check("fresh object with fresh index lists", gi is not g and gi.target is not g.target and (gi.control is None or gi.control is not g.control))
+    h.check("same number of targets / controls", len(gi.target) == nt and ((gi.control is None) if nc == 0 else len(gi.control) == nc))
+    for i, q in enumerate(qs):
+        h.check_close(f"qubit {i} kept in place", gi.target[i] if i < nt else gi.control[i - nt], q)
+    if name in ("S", "T"):
+        h.check("S / T invert to a PHASE gate", gi.name == "PHASE")
+        h.check_close("with angle -pi/2 / -pi/4", gi.parameter, -pi_ / (2 if name == "S" else 4))
+    elif name in PARAM:
+        h.check("same name", gi.name == name)
+        h.check_close("negated parameter", gi.parameter, -theta)
+    else:
+        h.check("self-inverse gate: same name, no parameter", gi.name == name and gi.parameter == "")
+    h.check("variational flag kept", gi.is_variational is True)
+    h.done()
+
+
+@contract("C09", "P1.Circuit.inverse.any_length", targets=[(C, "Circuit.inverse")], level="P",
+          structures=lambda tier: [{"fixed": f, "name": n} for f in (None, "sym") for n in ("H", "RZ", "CRX", "CNOT", "SWAP", "MEASURE", "CMEASURE", "XX", "T")])
+def p1(h, st):
+    """for a circuit of ANY length: inverse() constructs (C11.P4) a circuit from [g.inverse() for g in reversed(gates)] - every gate, none dropped, in reversed order, each
+    replaced by the result of Gate.inverse (contract O2 / P0) - with the same fixed width; the source circuit is untouched. Telescoping U(g_1^-1) ... U(g_n^-1) U(g_n) ... U(g_1)
+    with O2 gives U(result) U(c) == 1 for every length"""
+    if not h.symbolic:
+        h.check("native: covered by O4", True)
+        h.done()
+        return
+    log, inv_log = [], []
+    stub(h, C, "Circuit.__init__", lambda a, k: None, log=log)
+    stub(h, G, "Gate.inverse", lambda a, k: Opaque("inverse", of=a[0]), log=inv_log)
+    # the generic element: a gate of the given name on symbolic qubits (Gate.inverse itself is under its own contracts O1 / O2 / P0, here replaced by them)
+    name = st["name"]
+    elem, _ = _sym_gate(h, name, 2 if name in TWO_TARGET else 1, 1 if name.startswith("C") and name != "CMEASURE" else 0, h.real("theta") if name in PARAM else "")
+    eb = snapshot(elem.__dict__)
+    seq = GSeq.atom("self._gates", elem)
+    N = h.integer("N") if st["fixed"] else None
+    c = _blank_circuit(_gates=seq, _qubits_simulated=N)
+    before = dict(c.__dict__)
+    out = h.call(C, "Circuit.inverse", c)
+    h.check("exactly one constructor call", len(log) == 1)
+    a = _init_args(log[0])
+    gs = a["gates"]
+    h.check("same fixed width", a["n_qubits"] is N)
+    h.check("source circuit untouched", all(c.__dict__[k] is v for k, v in before.items()) and snapshot(elem.__dict__) == eb)
+    if not isinstance(gs, GSeq):
+        h.check("gate list derived from self._gates", False)
+    elif gs.n == "empty":
+        h.check("empty circuit: empty inverse", gs.describe() == ("comp", ("reversed", ("atom", "self._gates"))) and inv_log == [])
+    else:
+        h.check("gates taken in REVERSED order, none dropped", gs.describe() == ("comp", ("reversed", ("atom", "self._gates"))) and gs.kept is True)
+        h.check("each gate replaced by its Gate.inverse()", len(inv_log) == 1 and inv_log[0][0][0] is elem and isinstance(gs.image, Opaque) and gs.image._info.get("of") is elem)
+    h.done()
+
+
+def p2_structures(tier):
+    names = ["RX", "RY", "RZ", "CRX", "CRY", "CRZ", "PHASE", "CPHASE", "XX", "H", "CNOT", "MEASURE", "SWAP"]
+    return [{"name": n, "k": k, "remove_qubits": r} for n in names for k in ((-2, -1, 0, 1, 2) if n in PARAM else (0,)) for r in (False, True)]
+
+
+@contract("C09", "P2.remove_small_rotations.any_length", targets=[(C, "remove_small_rotations")], level="P", structures=p2_structures)
+def p2(h, st):
+    """for a circuit of ANY length and a generic gate of it (every name; every real angle, written 2 pi k + delta; every threshold 0 < thr < 1): the result is constructed
+    (C11.P4) from the ORDER-PRESERVING FILTER of the gate sequence in which the generic gate is kept as the same object, or dropped - and it is dropped only if it is a
+    rotation of the documented set whose angle lies within thr of a multiple of its TRUE period (2 pi for RX/RY/RZ up to a global phase, 4 pi for controlled rotations);
+    fixed width = the source's width unless remove_qubits; the source circuit is untouched"""
+    if not h.symbolic:
+        h.check("native: covered by O5", True)
+        h.done()
+        return
+    name = st["name"]
+    nt = 2 if name in TWO_TARGET else 1
+    nc = 1 if name.startswith("C") else 0
+    log = []
+    stub(h, C, "Circuit.__init__", lambda a, k: None, log=log)
+    if name in PARAM:
+        delta, thr = h.real("delta"), h.real("thr")
+        h.assume(delta > -3)
+        h.assume(delta < 3)
+        p = delta + 2 * h.pi * st["k"]
+    else:
+        thr = h.real("thr")
+        p = ""
+    h.assume(thr > 0)
+    h.assume(thr < 1)
+    g, qs = _sym_gate(h, name, nt, nc, p)
+    gb = snapshot(g.__dict__)
+    seq = GSeq.atom("circuit._gates", g)
+    w = h.integer("w")
+    c = _blank_circuit(_gates=seq, _qubits_simulated=None)
+    stub(h, C, "Circuit.width", lambda a, k: w)
+    before = dict(c.__dict__)
+    h.call(C, "remove_small_rotations", c, thr, st["remove_qubits"])
+    h.check("exactly one constructor call", len(log) == 1)
+    a = _init_args(log[0])
+    gs = a["gates"]
+    h.check("source circuit and its gate untouched", all(c.__dict__[k] is v for k, v in before.items()) and snapshot(g.__dict__) == gb)
+    h.check("fixed width: the source's width, or none when qubits may be removed", (a["n_qubits"] in ("<absent>", None)) if st["remove_qubits"] else (a["n_qubits"] is w))
+    if not isinstance(gs, GSeq):
+        h.check("gate list derived from circuit._gates", False)
+        h.done()
+        return
+    h.check("order-preserving filter of the gate sequence", gs.describe() == ("comp", ("atom", "circuit._gates")))
+    if gs.n == "empty":
+        h.done()
+        return
+    if gs.kept:
+        h.check("a kept gate is handed over as it is", gs.image is g)
+    else:
+        h.check("only rotations of the documented set are dropped", name in ("RX", "RY", "RZ", "CRX", "CRY", "CRZ"))
+        if name in PARAM:
+            if st["k"] % (2 if name.startswith("C") else 1) == 0:
+                h.check("dropped rotation is within thr of a multiple of its true period", abs(delta) < thr)
+            else:
+                h.check("dropped rotation is within thr of a multiple of its true period", (abs(delta - 2 * h.pi) < thr) | (abs(delta + 2 * h.pi) < thr))
+    h.done()
+
+
 PROPERTY = {
     "level": "proof",
     "explanation": "S-level contracts on Gate.inverse/__eq__, Circuit.inverse/copy/+/*, remove_small_rotations, remove_redundant_gates, "
